@@ -20,6 +20,9 @@ def probe(ctx, f, shadow, where, case):
         k = shadow[len(shadow) // 2]
         if not f.check_alt(f.hashes(k)):
             ctx.fail(f"added key reported absent by check_alt(hashes(key)) {where}", key=k)
+        # "hash once, use on several filters": a hash list computed for a DEEPER filter is a prefix-compatible argument
+        if not f.check_alt(f.hashes(k, f.number_hashes + 1 + len(shadow) % 5)):
+            ctx.fail(f"added key reported absent by check_alt() given a longer (deeper) hash list {where}", key=k)
     ctx.count("full_probes")
 
 
@@ -68,7 +71,7 @@ def wl_plain(ctx, rng, case):
                     f.add(key)
                 else:
                     case.op("add_alt", key)
-                    f.add_alt(f.hashes(key))
+                    f.add_alt(f.hashes(key) if rng.random() < 0.5 else f.hashes(key, f.number_hashes + rng.randint(1, 6)))
                 if key not in shadow:
                     shadow.append(key)
                 ctx.count("op.add")
@@ -237,7 +240,7 @@ def wl_expanding(ctx, rng, case):
                     f.add(key, force) if force else f.add(key)
                 else:
                     case.op("add_alt", key, force)
-                    f.add_alt((hf or _default_hf())(key, k), force)
+                    f.add_alt((hf or _default_hf())(key, k + rng.choice([0, 0, 1, 4])), force)
                 if key not in shadow:
                     shadow.append(key)
                 ctx.count("op.add")
@@ -260,6 +263,10 @@ def wl_expanding(ctx, rng, case):
                 ctx.count("op.reload")
                 ctx.count(f"reload.{chan}")
             probe(ctx, f, shadow, f"after step {step} ({case.ops[-1][0]}), expansions={f.expansions}", case)
+            if shadow:
+                kx = shadow[step % len(shadow)]
+                ctx.check(f.check_alt((hf or _default_hf())(kx, k)) and f.check_alt((hf or _default_hf())(kx, k + 3)),
+                          f"added key reported absent by the expanding filter's check_alt() (exact or deeper hash list) after step {step}", key=kx)
             now = sub_bits(bytes(f))
             ctx.check(len(now) >= len(prev), f"a sub-filter was dropped at step {step}", before=len(prev), after=len(now))
             for i, old in enumerate(prev):
